@@ -67,14 +67,19 @@ impl Drop for CounterGuard {
     }
 }
 
+/// The worker slot has already been reserved by [`AsyncifyPool::dispatch`]; the
+/// guard releases it when the worker exits (or if the thread fails to start).
+/// The worker owns its first job, so the dispatcher never has to rendezvous
+/// with a thread that may already have idled out.
 fn worker(
     receiver: Receiver<BoxedDispatchable>,
-    counter: Arc<AtomicUsize>,
+    guard: CounterGuard,
     timeout: Duration,
+    first: BoxedDispatchable,
 ) -> impl FnOnce() {
     move || {
-        counter.fetch_add(1, Ordering::AcqRel);
-        let _guard = CounterGuard(counter);
+        let _guard = guard;
+        first.run();
         while let Ok(f) = receiver.recv_timeout(timeout) {
             f.run()
         }
@@ -116,18 +121,26 @@ impl AsyncifyPool {
                 TrySendError::Full(f) => {
                     if self.thread_limit == 0 {
                         panic!("the thread pool is needed but no worker thread is running");
-                    } else if self.counter.load(Ordering::Acquire) >= self.thread_limit {
+                    } else if self
+                        .counter
+                        .fetch_update(Ordering::AcqRel, Ordering::Acquire, |n| {
+                            (n < self.thread_limit).then_some(n + 1)
+                        })
+                        .is_err()
+                    {
                         // SAFETY: we can ensure the type
                         Err(DispatchError(*unsafe {
                             Box::from_raw(Box::into_raw(f).cast())
                         }))
                     } else {
+                        // The slot is reserved before the thread exists, so dispatchers
+                        // racing with the start-up of a worker cannot exceed the limit.
                         std::thread::spawn(worker(
                             self.receiver.clone(),
-                            self.counter.clone(),
+                            CounterGuard(self.counter.clone()),
                             self.recv_timeout,
+                            f,
                         ));
-                        self.sender.send(f).expect("the channel should not be full");
                         Ok(())
                     }
                 }
